@@ -87,6 +87,49 @@ def run(ctx):
         for cc, rr in zip(runs(c), rs):
             flat_c.append(cc); flat_r.append(rr)
     corr.t2t(ctx, flat_c, flat_r, proj=('outcome', 'text'), limit=ctx.scale(1200, 20000))
+    # uses before the definition are unknown; a (re)definition affects later uses only
+    oc = []
+    for _ in range(ctx.scale(400, 8000)):
+        g = gen.G(rng, {'only': BODY_ONLY, 'heading_footnotes': False})
+        d1 = g.c_newcommand(); d1['m']['body'] = [b for b in d1['m']['body'] if b['t'] in ('word', 'param')] or [g.word()]
+        m = d1['m']
+        def call():
+            args = []
+            for k in range(m['nargs']):
+                if k == 0 and m['opt'] is not None:
+                    args.append(g.optarg() if rng.random() < 0.5 else None)
+                else:
+                    args.append(g.optarg())
+            return {'t': 'call', 'm': m, 'args': args, 'single': False, 'sp': ''}
+        items = [g.word(), {'t': 'ws', 's': ' '}]
+        if m['opt'] is None:       # an unknown macro does not take [..]: keep the early use to braced arguments
+            items += [call(), {'t': 'ws', 's': ' '}, g.word(), {'t': 'ws', 's': '\n'}]
+        items += [d1, {'t': 'ws', 's': '\n'}, g.word(), {'t': 'ws', 's': ' '}, call(), {'t': 'ws', 's': ' '}]
+        if rng.random() < 0.5:
+            d2 = g.c_newcommand(); d2['m']['name'] = m['name']; d2['m']['nargs'] = m['nargs']; d2['m']['opt'] = m['opt']
+            d2['m']['cmd'] = '\\renewcommand'
+            d2['m']['body'] = [b for b in d2['m']['body'] if b['t'] == 'word' or (b['t'] == 'param' and b['n'] <= m['nargs'])] or [g.word()]
+            m2 = d2['m']
+            items += [d2, {'t': 'ws', 's': '\n'}, g.word(), {'t': 'ws', 's': ' '},
+                      {'t': 'call', 'm': m2, 'args': [g.optarg() if not (k == 0 and m2['opt'] is not None) or rng.random() < 0.5 else None for k in range(m2['nargs'])], 'single': False, 'sp': ''}]
+        items += [{'t': 'ws', 's': ' '}, g.word()]
+        ast = {'t': 'seq', 'items': items}
+        r = gen.R(); gen.render(ast, r)
+        oc.append({'src': r.src(), 'opts': {'pack': '*'}, 'multi': False, 'ast': ast, 'want_toks': False})
+    ors = ctx.pmap(t2t.run_case, [{k: v for k, v in c.items() if k != 'ast'} for c in oc])
+    for c, r in zip(oc, ors):
+        ctx.case(c['src']); ctx.count('order_cases')
+        if r['outcome'] != 'ok':
+            continue
+        try:
+            exp = sem.evaluate(c['ast'])
+        except sem.Unsupported:
+            continue
+        got = [w for w, _ in semrun.out_words(r['txt']) if w not in exp.hidden]
+        want = [w for w, _ in exp.seq]
+        if got != want:
+            ctx.violation('use before / after (re)definition: expected words %r, got %r' % (want, got), src=c['src'], opts=c['opts'],
+                          D='', X=c['src'])
 
 def judge_witness(w):
     c = {'D': w['D'], 'X': w['X'], 'opts': w.get('opts') or {}, 'ast': {'t': 'seq', 'items': []}}
